@@ -100,7 +100,25 @@ class ExprMixin:
         finally:
             self._var_stack.discard(key)
         self._var_memo[key] = v
+        self.mark_shared(v, '%s%s' % ((var.cls.name + '.') if var.cls is not None else (var.module.relpath + ':'), var.name))
         return v
+
+    def mark_shared(self, v, where, depth=0):
+        """containers that live in a class / module level variable carry the name of that variable (C13.R5 reports them when they
+        become part of a parsed object without a copy)"""
+        if depth > 3:
+            return
+        if isinstance(v, (ListV, DictV)):
+            try:
+                v.shared_from = where
+            except AttributeError:
+                pass
+        if isinstance(v, tuple):
+            for x in v:
+                self.mark_shared(x, where, depth + 1)
+        elif isinstance(v, ListV):
+            for x in v.items:
+                self.mark_shared(x, where, depth + 1)
 
     def module_constant_by_evaluation(self, var):
         """a module level constant bound to the result of a call of a module level function of the repository without
@@ -536,8 +554,10 @@ class ExprMixin:
         """sequence kinds known to hold at least one element: str.split(), parse_string_array without skip_empty,
         slices thereof are *not* included"""
         if isinstance(v, Sym) and v.op == 'call' and v.args and isinstance(v.args[0], Sym) and v.args[0].op == 'attr' \
-                and v.args[0].args[1] in ('split', 'rsplit', 'splitlines') and v.args[0].args[1] != 'splitlines':
-            return True
+                and v.args[0].args[1] in ('split', 'rsplit'):
+            # with an explicit separator the result has at least one element; ``s.split()`` (any whitespace) of an empty or
+            # blank string is the empty list
+            return len(v.args) >= 2 and v.args[1] is not None and not (isinstance(v.args[1], tuple) and v.args[1][:1] == ('kw',))
         if isinstance(v, Sym) and v.op == 'call' and v.args and v.args[0] == 'struct.unpack':
             return True
         if isinstance(v, FieldV) and v.op is not None and v.op.prim == 'parse_string_array':
